@@ -117,7 +117,7 @@ BYTES_OPS = {'CAT', 'SLICE', 'SER', 'SER_SIGNED', 'HMAC512', 'HMAC', 'SHA256', '
 STR_OPS = {'NORM', 'HEX', 'B58ENC', 'BECH32', 'FORMAT', 'STR', 'DECODE', 'JOIN', 'UPPER', 'STRIP', 'BIN', 'ZFILL',
            'STRCAT', 'JSON', 'LOWER'}
 INT_OPS = {'INT', 'INT_SIGNED', 'ADD', 'SUB', 'MUL', 'MOD', 'FLOORDIV', 'POW', 'LEN', 'SK_ADD_INT', 'INTCAST', 'RANDBITS',
-           'LSHIFT', 'RSHIFT', 'BITAND', 'BITOR', 'BITXOR', 'NEG', 'ORD', 'INT2'}
+           'LSHIFT', 'RSHIFT', 'BITAND', 'BITOR', 'BITXOR', 'NEG', 'ORD', 'INT2', 'FIND', 'RFIND', 'INDEX', 'COUNT'}
 BOOL_OPS = {'LT', 'EQ', 'NOT', 'AND', 'OR', 'IN', 'IS', 'ISINSTANCE', 'BOOL', 'VALID_SK', 'LE', 'ALL', 'ANY'}
 POINT_OPS = {'PT', 'PT_ADD', 'PARSE_PT', 'PARSE_PT_UNVALIDATED'}
 
@@ -428,6 +428,21 @@ def slice_(t, lo, hi):
     n = length_of(t)
     if lo == NONE:
         lo = const(0)
+
+    def _len_relative(b):
+        # x[: len(x) - k] is x[:-k] and x[len(x) - k :] is x[-k:] for k >= 1 (both clamp the same way when len(x) < k)
+        if is_op(b, 'ADD') and len(b) == 4:
+            for c_, l_ in ((b[2], b[3]), (b[3], b[2])):
+                if is_const(c_) and isinstance(c_[1], int) and not isinstance(c_[1], bool) and c_[1] <= -1 \
+                        and is_op(l_, 'LEN') and l_[2] == t:
+                    return const(c_[1])
+        if is_op(b, 'LEN') and b[2] == t:
+            return None
+        return b
+    if n is None:
+        lo2, hi2 = _len_relative(lo), _len_relative(hi)
+        lo = const(0) if lo2 is None and False else (lo if lo2 is None else lo2)
+        hi = NONE if hi2 is None else hi2
     if lo == const(0) and hi == NONE and tag(t) not in ('phi', 'raise'):
         return t        # t[0:] / t[:] of a sequence is an equal sequence
     if is_const(lo) and is_const(hi) and (lo[1] is None or isinstance(lo[1], int)) \
@@ -690,6 +705,8 @@ def _arith(name, pyf):
             return a
         if name in ('BITXOR', 'BITOR') and a == const(0) and type(a[1]) is int:
             return b
+        if name in ('BITXOR', 'BITOR', 'BITAND') and (_int_typed(a) or _int_typed(b)):
+            a, b = sorted((a, b), key=repr)          # commutative on integers: one operand order
         return ('op', name, a, b)
     return f
 
@@ -877,12 +894,50 @@ def eq(a, b):
     return ('op', 'EQ', x, y)
 
 
+def _int_typed(t):
+    return (is_const(t) and isinstance(t[1], int) and not isinstance(t[1], bool)) or type_of(t) == 'int'
+
+
+def _split_const(t):
+    """(symbolic part or None, integer constant part) of an integer expression."""
+    if is_const(t):
+        return None, t[1]
+    if is_op(t, 'ADD'):
+        k = 0
+        rest = []
+        for x in t[2:]:
+            if is_const(x) and isinstance(x[1], int) and not isinstance(x[1], bool):
+                k += x[1]
+            else:
+                rest.append(x)
+        if not rest:
+            return None, k
+        return (rest[0] if len(rest) == 1 else ('op', 'ADD') + tuple(rest)), k
+    return t, 0
+
+
 def lt(a, b):
     if _all_const(a, b):
         try:
             return const(a[1] < b[1])
         except TypeError:
             return raise_('TypeError')
+    if _int_typed(a) and _int_typed(b):
+        # integer comparisons have one spelling: constants on the right, `c < x` as `not x < c+1`, `x + 7 > y` as `y < x + 7`
+        # (so that `<= 75` / `< 76`, `> 0x7fffffff` / `>= 2**31`, `pos + 6 >= n` / `pos + 7 > n` are the same term)
+        A, k1 = _split_const(a)
+        B, k2 = _split_const(b)
+        if A is None and B is None:
+            return const(k1 < k2)
+        if B is None:
+            return ('op', 'LT', A, const(k2 - k1))
+        if A is None:
+            return not_(('op', 'LT', B, const(k1 - k2 + 1)))
+        if A == B:
+            return const(k1 < k2)
+        if repr(A) <= repr(B):
+            return ('op', 'LT', A, _add_nary([B, const(k2 - k1)]))
+        return not_(('op', 'LT', B, _add_nary([A, const(k1 + 1 - k2)])))
     return ('op', 'LT', a, b)
 
 
